@@ -5151,16 +5151,19 @@ class Symbol:
                 else:
                     # 3) Apply weak_rev_values (weakly-set) if any
                     # Like imply: only apply when the target's direct dependencies are met
+                    weakly_set = False
                     for weak_rev_value in self.weak_rev_values:
                         candidate_val, cond, _ = weak_rev_value
                         if expr_value(cond) and expr_value(self.direct_dep):
                             val = candidate_val.str_value
                             # same as imply; if weakly set, it is written to .config even if not visible
                             self._write_to_conf = True
+                            # an empty string is a value too: do not fall through to the defaults
+                            weakly_set = True
                             break
                     # Otherwise, look at defaults
                     # 4) Apply defaults if any
-                    if not val:
+                    if not weakly_set:
                         for sym, cond in self.defaults:
                             if expr_value(cond):
                                 val = sym.str_value
@@ -5879,7 +5882,8 @@ class Symbol:
             for candidate_val, cond, _ in self.weak_rev_values:
                 if expr_value(cond) and expr_value(self.direct_dep):
                     if self.orig_type == STRING:
-                        val = candidate_val.str_value
+                        # for strings, the empty string is a value as well
+                        return candidate_val.str_value
                     elif self.orig_type == FLOAT:
                         val = _normalize_float(candidate_val.name) if is_float(candidate_val.name) else ""
                     else:
